@@ -197,7 +197,12 @@ def _flag(col):
                 within = rest[0] if ok else None
         col.add("C09.R4", f"{q}#true-only-under-universal-test", ok, sx.loc(e),
                 "the flag becomes True only under np.all(within-tolerance | inactive-target)", f"conditions: {[S.show(c)[:70] for c in conds]}")
-        other = [c for c in conds if c not in uni and not (c[:1] == ("uop",) and c[1] == "not" and _is_boolflag(c[2])) and not _is_boolflag(c)]
+        def _failure_sentinel_test(c):
+            # `res is not None` where res is what running the actions returned, or None for "an action failed" (instead of a flag)
+            return c[:1] == ("cmp",) and c[1] in ("is", "is not") and c[3] == ("const", "None") and \
+                any(S.is_call_of(x, meth="run") for x in S.subterms(c[2])) and ("const", "None") in S.alts(c[2])
+        other = [c for c in conds if c not in uni and not (c[:1] == ("uop",) and c[1] == "not" and _is_boolflag(c[2])) and not _is_boolflag(c)
+                 and not _failure_sentinel_test(c)]
         col.add("C09.R4", f"{q}#no-extra-condition-for-true", not other, sx.loc(e),
                 "no other condition stands between a matched evaluation and the flag", f"{[S.show(c)[:70] for c in other]}")
         if within is not None:
@@ -216,7 +221,10 @@ def _flag(col):
                   and e.value[1] == ("elem", S.sattr("targets"))]
     col.add("C09.R4", f"{q}#tolerances-from-targets", bool(tol_stores), sx.loc(tol_stores[0]) if tol_stores else sx.loc(sx.fn),
             "the tolerances compared are the targets' own `tol`", "")
-    col.add("C09.R4", f"{q}#false-on-failed-action", any(any(_is_boolflag(c) for c in sx.conds(e.nid)) for e in falses), sx.loc(sx.fn),
+    def _failed_test(c):
+        return _is_boolflag(c) or (c[:1] == ("cmp",) and c[1] == "is" and c[3] == ("const", "None") and ("const", "None") in S.alts(c[2])
+                                   and any(S.is_call_of(x, meth="run") for x in S.subterms(c[2])))
+    col.add("C09.R4", f"{q}#false-on-failed-action", any(any(_failed_test(c) for c in sx.conds(e.nid)) for e in falses), sx.loc(sx.fn),
             "an evaluation whose action failed is not within tolerance", "")
 
 
